@@ -294,9 +294,11 @@ class Machine:
 
 
 # ------------------------------------------------------------------------------------------ CFDP PDUs
-def cfdp_inputs(kind, cfg, p, direction=None):
-    """fresh caller objects for the constructor of a PDU kind: (callable building the PDU, held list)"""
-    conf = U.pdu_config(cfg, direction)
+def cfdp_inputs(kind, cfg, p, direction=None, conf=None):
+    """fresh caller objects for the constructor of a PDU kind: (callable building the PDU, held list);
+    conf: use this (caller-owned) configuration object instead of a fresh one (sibling exploration)"""
+    if conf is None:
+        conf = U.pdu_config(cfg, direction)
     held = [("pdu_conf", conf)]
 
     def fl(x):
@@ -430,10 +432,13 @@ class CfdpMachine(Machine):
                        ("file_store_responses=[r]", "file_store_responses", [RESP_A]), ("file_store_responses=[r,r2]", "file_store_responses", [RESP_A, RESP_B])]
                 if t:
                     ev += [("file_store_responses=[r3]", "file_store_responses", [RESP_C])]
+            # E1 and E4 carry the SAME numeric entity ID in different widths (EntityIdTlv.__eq__ compares the number only:
+            # a setter that skips its recomputation when "the value did not change" is stale exactly here)
             ev += [("fault_location=None", "fault_location", None), ("fault_location=E1", "fault_location", b"\x05"),
-                   ("fault_location=E4", "fault_location", b"\x05\x06\x07\x08")]
+                   ("fault_location=E4", "fault_location", b"\x00\x00\x00\x05")]
             if t:
-                ev += [("fault_location=E2", "fault_location", b"\x31\x32"), ("fault_location=E8", "fault_location", bytes(range(0x41, 0x49)))]
+                ev += [("fault_location=E2", "fault_location", b"\x31\x32"), ("fault_location=E8", "fault_location", bytes(range(0x41, 0x49))),
+                       ("fault_location=E4b", "fault_location", b"\x05\x06\x07\x08"), ("fault_location=E2same", "fault_location", b"\x00\x05")]
         elif k == "MetadataPdu":
             ev += [("options=None", "options", None), ("options=[tlv]", "options", [OPT_A]), ("options=[tlv,tlv2]", "options", [OPT_A, OPT_B])]
             if t:
@@ -1062,6 +1067,69 @@ def account(rec, mach, evs, start, fails, new, raw, forms):
 
 
 # ======================================================================================================
+# sibling exploration: two packets built from ONE caller-owned PduConfig
+# ======================================================================================================
+# "constructing or packing a packet never modifies the configuration ... objects the caller passed in" is what allows a
+# caller to build several PDUs from one PduConfig.  Packet B, built from the same configuration object as packet A and
+# never touched afterwards, is a packet after the EMPTY setter history: whatever is done to A (any setter history, pack),
+# B's reported length must still equal the octets it packs and those octets must be what they were.  The caller's
+# configuration is given both directions (a constructor may treat "already my direction" differently).
+SIBLING_KINDS = ["EofPdu", "FinishedPdu", "MetadataPdu", "NakPdu", "FileDataPdu", "KeepAlivePdu"]
+
+
+def sibling_one(rec, mach, cfg, ii, direction, names, level="t"):
+    init = mach.inits(cfg)[ii]
+    by_name = {e[0]: e for e in mach.events(level)}
+    evs = [by_name[n] for n in names]
+    case = {"kind": "sibling", "m": mach.name, "cfg": dict(cfg), "init": ii, "dir": direction, "seq": list(names)}
+    model = {"cfg": dict(cfg), "p": copy.deepcopy(init)}
+    conf = U.pdu_config(_cfg(cfg), direction)
+    try:
+        ctor_a, held_a = cfdp_inputs(mach.kind, _cfg(cfg), model["p"], conf=conf)
+        ctor_b, _held_b = cfdp_inputs(mach.kind, _cfg(cfg), copy.deepcopy(init), conf=conf)
+        a = ctor_a()
+        b = ctor_b()
+        before = (bytes(b.pack()), int(mach.reported_len(b)))
+    except Exception:
+        rec.count("sibling_start_not_constructible")
+        return  # the start state itself is C06/C07's business
+    rec.case(True, ops=len(evs) + 4)
+    rec.transitions += len(evs)
+    rec.traces += 1
+    rec.count(f"sibling_histories/{mach.name}")
+    culprit = "constructor"
+    for ev in evs:
+        try:
+            mach.apply(a, ev, model, held_a)
+        except Exception:
+            return  # judged by the history exploration of A itself
+        culprit = ev[1]
+        try:
+            after = (bytes(b.pack()), int(mach.reported_len(b)))
+        except Exception as e:
+            after = ("exception", repr(e))
+        if after != before:
+            kind = "reported-length!=len(pack())" if (after[0] != "exception" and len(after[0]) != after[1]) else "octets-changed"
+            rec.violation(f"C11.sibling/{mach.name}/untouched-packet-built-from-the-same-PduConfig/{kind}/after={culprit}", case,
+                          {"octets": after[0], "reported_len": after[1]}, {"octets": before[0], "reported_len": before[1]},
+                          note="A and B are built from one caller-owned PduConfig (direction %d); the history is applied to A only: %s" % (direction, " ; ".join(names)))
+            return
+    rec.outcome(f"sibling/{mach.name}/ok")
+
+
+def sibling_run(rec, item):
+    mach = M(item["m"])
+    depth = item["depth"]
+    names = [e[0] for e in mach.events("q")]
+    for cfg in mach.cfgs("quick"):
+        for ii in range(len(mach.inits(cfg))):
+            for direction in (0, 1):
+                for d in range(0, depth + 1):
+                    for seq in itertools.product(names, repeat=d):
+                        sibling_one(rec, mach, cfg, ii, direction, list(seq), level="q")
+
+
+# ======================================================================================================
 # explorers
 # ======================================================================================================
 def explore_stateless(rec, mach, cfg, ii, init, level, depth, first, forms):
@@ -1334,6 +1402,8 @@ def shards(tier):
                     items.append(dict(base, mode="stateless", level="q", depth=4, first=None))
     for unit in PURITY_UNITS:
         items.append({"kind": "purity", "unit": unit, "tier": tier})
+    for name in SIBLING_KINDS:
+        items.append({"kind": "sibling", "m": name, "depth": 2 if q else 3, "tier": tier})
     # heavy shards first so that the pool drains evenly
     items.sort(key=lambda it: 0 if (it.get("m") == "MetadataPdu" or it.get("mode") == "bfs") else 1)
     return items
@@ -1344,6 +1414,9 @@ def run_shard(item):
     if item["kind"] == "purity":
         for case in purity_cases(item["unit"], item["tier"]):
             purity_one(rec, case)
+        return rec.result()
+    if item["kind"] == "sibling":
+        sibling_run(rec, item)
         return rec.result()
     mach = M(item["m"])
     cfg = item["cfg"]
@@ -1378,6 +1451,9 @@ def replay(case):
     rec = Rec(PROPERTY, "replay")
     if case["kind"] == "purity":
         purity_one(rec, case)
+        return rec.result()
+    if case["kind"] == "sibling":
+        sibling_one(rec, M(case["m"]), case["cfg"], case["init"], case["dir"], case["seq"], level="t")
         return rec.result()
     mach = M(case["m"])
     cfg = case["cfg"]
